@@ -340,6 +340,11 @@ def check(case):
             bound = 1e-8 * onp.abs(ref) + 1e-7 * onp.abs(ref).max() + 1e-300
             if fam == 'power':
                 bound = bound * 50          # pow(x, m) itself is accurate to ~m ulp only
+            # the derivative with respect to the overall scale is -(f/scale)/f_x, i.e. the residual at the returned root itself:
+            # pure rounding noise of the cancelling terms
+            isc = {'cubic': 3, 'exp': 2, 'power': 2, 'tanh': 3, 'poly3': 3}[fam]
+            sc = abs(float(case['theta'][isc]))
+            bound[isc] += 4 * f_noise(fam, x, case['theta']) / max(sc * abs(fx), 1e-300)
             if not onp.all(onp.isfinite(g)) or (err > bound).any():
                 i = int(onp.argmax(err - bound))
                 fails.append(Failure('gradient', 'd root/d theta[%d] = %r, implicit-function value %r (root %r)'
